@@ -18,12 +18,9 @@ def mtStep (req : List String) : String :=
       else if parked = "parked-at=ephemeral_savepoint.checked" then some true
       else if parked = "parked-at=ephemeral_savepoint.enter" then some false
       else none
+    -- which call is "first": the model's own table of calls decides what it does to the state
     let firstOp : Option Tables.Op :=
-      -- every call that changes the catalog or hands out a table goes through set_dirty
-      if first ∈ ["first=open_table", "first=open_multimap_table", "first=delete_table", "first=rename_table",
-          "first=delete_multimap_table", "first=rename_multimap_table"] then some .setDirty
-      else if first = "first=ephemeral_savepoint" then some .ephemeralSavepoint
-      else none
+      if first.startsWith "first=" then (Tables.Call.ofName (first.drop 6).toString).map Tables.Call.op else none
     match inLock, firstOp with
     | some l, some f =>
       let other : Tables.Op := if f = .setDirty then .ephemeralSavepoint else .setDirty
